@@ -50,8 +50,8 @@ def seeded_table():
     rows.append(f"{len(res)} seeded changes, {missed} missed by the check of a property they break.")
     return "\n".join(rows)
 
-def refac_table():
-    p = "/verif/refactorings/RESULTS.json"
+def refac_table(base="/verif/refactorings"):
+    p = base + "/RESULTS.json"
     if not os.path.exists(p):
         return "(not yet generated: run `python3 tools/run_refac.py`)"
     res = json.load(open(p))
@@ -59,7 +59,7 @@ def refac_table():
     quiet = 0
     for k in sorted(res):
         r = res[k]
-        md = f"/verif/refactorings/{k}.md"
+        md = f"{base}/{k}.md"
         what = open(md).read().strip().splitlines()[0] if os.path.exists(md) else ""
         what = what.replace("|", "/")
         if len(what) > 160: what = what[:157] + "..."
@@ -82,4 +82,5 @@ s = open("/verif/DESIGN.md").read()
 s = fill(s, "STATUS-TABLE", status_table())
 s = fill(s, "SEEDED-TABLE", seeded_table())
 s = fill(s, "REFAC-TABLE", refac_table())
+s = fill(s, "REFAC2-TABLE", refac_table("/verif/refactorings2"))
 open("/verif/DESIGN.md", "w").write(s)
